@@ -79,7 +79,7 @@ def jobs(tier):
 def requirements(tier):
     k = 1 if tier == "quick" else 10
     req = {
-        "leap:judged": 80 * k, "leap:label:UTC": 20 * k, "ivp:free": 2000 * k, "history:propagated-before-maneuvers-attached": 100 * k, "request-label:TT": 100 * k, "request-label:GPS": 100 * k,
+        "leap:judged": 80 * k, "leap:label:UTC": 20 * k, "ivp:free": 2000 * k, "history:propagated-before-maneuvers-attached": 100 * k, "history:maneuvers-attached-in-place-with-a-bystander": 100 * k, "request-label:TT": 100 * k, "request-label:GPS": 100 * k,
         "propagator:from_orbit:QSW": 20, "propagator:from_orbit:TNW": 20,
         "stream:evaluated": 2000 * k,
         "stream:maneuver-at-epoch": 100 * k,
@@ -526,11 +526,28 @@ def case_mans(ctx, job, idx, rng, st):
                 ctx.count("history:propagated-before-maneuvers-attached")
             except Exception as exc:
                 ctx.violation("C16/propagate-raises-free", dict(sma=sma, exc=repr(exc)), repr(exc))
+        bystander = None
         try:
-            orbs[ori].maneuvers = build_lib_maneuvers(mans, ori, epoch)
+            if idx % 3 == 1:
+                # history: a second chaser of the same target exists, without any maneuver; the maneuvers of the first are
+                # attached in place (orb.maneuvers.extend(...), as the documentation of the helper does)
+                bystander, _p = make_orbit(st, sma, ori, states[ori], epoch)
+                orbs[ori].maneuvers.extend(build_lib_maneuvers(mans, ori, epoch))
+                ctx.count("history:maneuvers-attached-in-place-with-a-bystander")
+            else:
+                orbs[ori].maneuvers = build_lib_maneuvers(mans, ori, epoch)
         except Exception as exc:
             ctx.violation("C16/maneuver-constructor-raises", dict(mans=mans_descr(mans), exc=repr(exc)), repr(exc))
             return
+        if bystander is not None:
+            qb = rng.randint(end + 2, max(end + 10, 2 * T_us))
+            wb = dict(sma=sma, n=n, orientation=ori, state0=states[ori], epoch=edesc, mans_of_the_other_orbit=mans_descr(mans), dt_us=qb)
+            gotb = lib_state(ctx, bystander, date_at(epoch, qb), "bystander", wb)
+            if gotb is not None:
+                refb = hill.trajectory(states[ori], n, [], qb * 1e-6, ori)
+                cmp_state(ctx, "ivp:bystander-without-maneuvers", gotb, refb, n, scale_of(states[ori], n, qb * 1e-6), REL_IVP,
+                          "C16/orbit-without-maneuvers-receives-those-of-another-orbit", wb,
+                          "a second orbit without maneuvers does not follow the free motion after maneuvers were attached in place to the first")
         omans[ori] = oracle_maneuvers(mans, ori)
         w0 = dict(sma=sma, n=n, orientation=ori, state0=states[ori], epoch=edesc, mans=mans_descr(mans))
         for q in queries:
@@ -909,7 +926,9 @@ def case_helper(ctx, job, idx, rng, st):
 
 # ---------------------------------------------------------------------------------------------
 def case_overlap(ctx, job, idx, rng, st):
-    """An impulse strictly inside a burn (list ordered by starting date)."""
+    """An impulse strictly inside a burn, or two burns that overlap (list ordered by starting date)."""
+    if idx % 2 == 1:
+        return case_overlap_burns(ctx, job, idx, rng, st)
     sma = gen_sma(rng)
     n = math.sqrt(st["mu"] / sma ** 3)
     T_us = int(2 * math.pi / n * 1e6)
@@ -942,6 +961,51 @@ def case_overlap(ctx, job, idx, rng, st):
         cmp_state(ctx, "overlap:" + label, got, ref, n, scale_of(state, n, q * 1e-6, dv_sum, acc_sum), REL_IVP, key,
                   dict(w0, dt_us=q, query_class=label), f"impulse dated inside a burn: state {label} differs from Hill's equations with both maneuvers")
         ctx.count("overlap:" + label)
+
+
+def case_overlap_burns(ctx, job, idx, rng, st):
+    """Two constant-thrust burns ordered by ignition date whose intervals overlap (a long along-track burn and a shorter
+    correction started before the first one stops; the second may end before or after the first)."""
+    sma = gen_sma(rng)
+    n = math.sqrt(st["mu"] / sma ** 3)
+    T_us = int(2 * math.pi / n * 1e6)
+    rac, _ = gen_rel_state(rng, n)
+    epoch, edesc = gen_epoch(rng)
+    a0 = rng.randint(1, T_us // 2)
+    a1 = a0 + rng.randint(T_us // 20, T_us // 2)
+    b0 = rng.randint(a0 + 2, a1 - 4)
+    nested = rng.random() < 0.4
+    b1 = rng.randint(b0 + 2, a1 - 2) if nested else a1 + rng.randint(2, T_us // 3)
+    mans = [
+        {"kind": "burn", "t_us": a0, "stop_us": a1, "acc": rand_dir(rng) * 10 ** rng.uniform(-5, -2), "given": "accel", "date_pos": "start"},
+        {"kind": "burn", "t_us": b0, "stop_us": b1, "acc": rand_dir(rng) * 10 ** rng.uniform(-5, -2), "given": "accel", "date_pos": "start"},
+    ]
+    ori = rng.choice(["QSW", "TNW"])
+    ctx.case({"job": "overlap-burns", "sma": sma, "state_rac": rac, "epoch": edesc, "mans": mans_descr(mans), "ori": ori, "nested": nested})
+    ctx.count("orientation:" + ori)
+    state = to_axes(rac, ori)
+    orb, _ = make_orbit(st, sma, ori, state, epoch)
+    orb.maneuvers = build_lib_maneuvers(mans, ori, epoch)
+    om = oracle_maneuvers(mans, ori)
+    acc_sum = float(np.linalg.norm(mans[0]["acc"]) + np.linalg.norm(mans[1]["acc"]))
+    w0 = dict(sma=sma, n=n, orientation=ori, state0=state, epoch=edesc, mans=mans_descr(mans), nested=nested)
+    end = max(a1, b1)
+    queries = [("first-burn-alone", rng.randint(a0, b0 - 1)), ("inside-both-burns", rng.randint(b0 + 1, min(a1, b1) - 1)),
+               ("after-both-burns", rng.randint(end, end + T_us)), ("after-both-burns", end)]
+    if nested:
+        queries.append(("first-burn-after-the-nested-one-stopped", rng.randint(b1, a1 - 1)))
+    else:
+        queries.append(("second-burn-after-the-first-one-stopped", rng.randint(a1, b1 - 1)))
+    for label, q in queries:
+        got = lib_state(ctx, orb, date_at(epoch, q), "overlap-burns", dict(w0, dt_us=q))
+        if got is None:
+            continue
+        ref = hill.trajectory(state, n, om, q * 1e-6, ori)
+        key = {"first-burn-alone": "C16/thrust-evolution", "inside-both-burns": "C16/burn-started-inside-a-burn-ignored-while-the-first-one-lasts",
+               "first-burn-after-the-nested-one-stopped": "C16/burn-started-inside-a-burn-ignored-while-the-first-one-lasts"}.get(label, "C16/overlapping-burns-" + label)
+        cmp_state(ctx, "overlap-burns:" + label, got, ref, n, scale_of(state, n, q * 1e-6, 0.0, acc_sum), REL_IVP, key,
+                  dict(w0, dt_us=q, query_class=label), f"two overlapping burns: state {label} differs from Hill's equations with both thrusts")
+        ctx.count("overlap-burns:" + label)
 
 
 LEAP_MJD = [53736, 54832, 56109, 57204, 57754]  # UTC days on which a new TAI-UTC enters into force
